@@ -316,13 +316,24 @@ func (r *tilingResult) checkCursors(src string, tab *posTable) {
 			r.addf("cursor", "cursor %d:%d (no byte there) is inside %d tokens %v", line, col, len(in), in)
 		}
 	}
+	// every position when that is affordable (each probe asks every token), an even sample otherwise
+	stride := 1
+	if cost := len(r.Tokens) * (len(src) + 1); cost > 100_000_000 {
+		stride = cost/100_000_000 + 1
+	}
 	for line := 0; line < len(tab.lineStart); line++ {
 		start := tab.lineStart[line]
 		end := len(src)
 		if line+1 < len(tab.lineStart) {
 			end = tab.lineStart[line+1]
 		}
+		if stride > 1 && line%stride != 0 && end-start < stride {
+			continue
+		}
 		for off := start; off < end; off++ {
+			if stride > 1 && off%stride != 0 && off != start && off != end-1 {
+				continue
+			}
 			probe(uint(line), uint(off-start), cover[off], true)
 		}
 		probe(uint(line), uint(end-start), -1, false)
